@@ -3,7 +3,7 @@
 From Coq Require Import Floats Permutation.
 From JM Require Import Model.Base Model.Num Model.Value Model.Interp Model.Api
      Spec.Grammar Spec.Semantics Proofs.ValueFacts Proofs.InterpRefine Proofs.SpecFacts
-     Inst.FloatNum Run.Checker.
+     Proofs.ParserComplete Proofs.LexText Proofs.LexAdj Proofs.LexExact Inst.FloatNum Run.Checker.
 
 Section C01.
 Context {NumO : NumOps}.
@@ -70,6 +70,25 @@ Theorem C01_pipe_and_subexpression :
                 eval ord (ESub l r) v = (x <- eval ord l v ;; eval ord r x).
 Proof. intros; split; reflexivity. Qed.
 
+(* from bytes, for every text: if the text reads (Lex: the lexical grammar of
+   Proofs/LexExact.v) as a token list that spells, token by token, a well-precedenced
+   tree e, then Search on the text is the specification's eval of e on every JSON
+   document; a text with no such reading is an error.  lit_text: the JSON text
+   chosen for a literal (lit_spec, satisfiable: C04_lit_text_exists). *)
+Theorem C01_search_from_bytes :
+  forall lit_text : value -> bytes, lit_spec lit_text ->
+  forall (s : bytes) l (e : expr) d,
+    Lex s l -> reads_as l (render lit_text e) -> wp e = true -> npos e = true -> plain d = true ->
+    Api.search ord s d = eval ord e d.
+Proof. exact (fun lt ok => search_bytes_exact lt ok ord ord_perm). Qed.
+
+Theorem C01_unreadable_text_is_an_error :
+  forall lit_text : value -> bytes, lit_spec lit_text ->
+  forall (s : bytes) d,
+    (forall l (e : expr), Lex s l -> reads_as l (render lit_text e) -> wp e = true -> npos e = true -> False) ->
+    exists err, Api.search ord s d = Err err.
+Proof. exact (fun lt ok => search_bytes_rejects lt ok ord). Qed.
+
 End C01.
 
 Print Assumptions C01_conformance.
@@ -81,6 +100,8 @@ Print Assumptions C01_index_non_array.
 Print Assumptions C01_multiselect_null.
 Print Assumptions C01_multiselect_list.
 Print Assumptions C01_pipe_and_subexpression.
+Print Assumptions C01_search_from_bytes.
+Print Assumptions C01_unreadable_text_is_an_error.
 
 (* non-vacuity: a concrete core expression on a concrete document; the
    hypotheses of C01_conformance hold for it and both sides compute *)
